@@ -6,6 +6,7 @@ import Mathlib.Algebra.BigOperators.Intervals
 import Mathlib.Algebra.Order.BigOperators.Group.Finset
 import Mathlib.Algebra.Group.Fin.Basic
 import Mathlib.Tactic.Abel
+import Mathlib.Data.ZMod.Basic
 import Mathlib.Algebra.BigOperators.Ring.Finset
 /-!
 # C01 — pixel-centred matched disk is located exactly  (partial)
@@ -22,9 +23,20 @@ Proved (exact arithmetic):
   of its own shape);
 * the centre of mass of a point-symmetric `(2r+1)²` neighbourhood is its centre, so the refined
   position equals the integer centre exactly (`com_symmetric`, `refined_exact`).
-**Not proved**: that radial-gradient / background-subtracting / user templates peak at the disk
-centre (uniqueness of the maximum for non-matching templates), the 0.01 px float bound and the
-`1.5/upsample` bound — decided by the oracle only.
+* **every sign-matched template on a flat (hard-edged) disk**: a template that is ≥ 0 on the disk's pixels and ≤ 0 off
+  them (radial gradient, background subtraction, user templates of that kind) has its correlation maximum at the disk
+  centre (`sign_matched_max`), strictly and uniquely so when it is positive on the disk and the disk is not mapped onto
+  itself by a non-zero shift (`sign_matched_strict`, `sign_matched_unique`); a strict maximum plus point symmetry gives
+  the exact integer centre and the exact refined position (`strictMax_isMaxAt`, `evaluate_strictmax_exact`);
+* the model's correlation map *is* that group correlation on the torus `ZMod H × ZMod W` with the mask centred on
+  `(H/2, W/2)` (`corrMap_eq_gcorr`), so the above composes **end to end**: `flat_disk_exact` — for every map size and
+  parity, every symmetric disk shape and every symmetric sign-matched template, the evaluation kernels applied to the
+  model's correlation map return integer centre `q` and refined position exactly `q` (non-vacuity: a concrete 7×7
+  instance is checked by `decide`).
+
+**Not proved**: the same for the *antialiased* disks and masks the library renders (edge pixels with fractional weights
+on both sides — there the uniqueness of the maximum is decided by the oracle only), the 0.01 px float bound and the
+`1.5/upsample` bound.
 -/
 namespace C01
 open Model
@@ -86,6 +98,101 @@ theorem matched_disk_max {G : Type} [AddCommGroup G] [Fintype G] (c q : G) (mask
     exact autocorr_max mask (q - j)
   rw [hq]
   nlinarith [mul_le_mul_of_nonneg_left hj hA]
+
+
+section SignMatched
+variable {G : Type} [AddCommGroup G] [Fintype G] [DecidableEq G]
+
+/-- a flat disk: amplitude `A` on the pixels `q + S`, background `B` -/
+def flatDisk (q : G) (S : Finset G) (A B : ℚ) : G → ℚ := fun x => A * (if x - q ∈ S then 1 else 0) + B
+
+/-- difference of the correlation maps at the disk centre and at any other pixel, term by term -/
+theorem flat_corr_diff (c q : G) (mask : G → ℚ) (S : Finset G) (A B : ℚ) (j : G)
+    (hsym : ∀ u, u ∈ S ↔ -u ∈ S) :
+    gcorr c mask (flatDisk q S A B) q - gcorr c mask (flatDisk q S A B) j
+      = A * ∑ u : G, mask (c + u) * ((if u ∈ S then 1 else 0) - (if (j - q) - u ∈ S then (1 : ℚ) else 0)) := by
+  unfold gcorr flatDisk
+  rw [← Finset.sum_sub_distrib, Finset.mul_sum]
+  rw [← Equiv.sum_comp (Equiv.addLeft c) (fun m => mask m * (A * (if q + c - m - q ∈ S then (1:ℚ) else 0) + B)
+      - mask m * (A * (if j + c - m - q ∈ S then (1:ℚ) else 0) + B))]
+  refine Finset.sum_congr rfl fun u _ => ?_
+  simp only [Equiv.coe_addLeft]
+  have e1 : q + c - (c + u) - q = -u := by abel
+  have e2 : j + c - (c + u) - q = j - q - u := by abel
+  simp only [e1, e2]
+  have h : (-u ∈ S) ↔ (u ∈ S) := (hsym u).symm
+  by_cases hu : u ∈ S
+  · have hn : -u ∈ S := h.mpr hu
+    simp only [hu, hn, if_true]; ring
+  · have hn : -u ∉ S := fun hh => hu (h.mp hh)
+    simp only [hu, hn, if_false]; ring
+
+/-- **sign-matched template, flat disk: the correlation map is maximal at the disk centre** -/
+theorem sign_matched_max (c q : G) (mask : G → ℚ) (S : Finset G) (A B : ℚ) (hA : 0 ≤ A)
+    (hsym : ∀ u, u ∈ S ↔ -u ∈ S)
+    (hin : ∀ u ∈ S, 0 ≤ mask (c + u)) (hout : ∀ u, u ∉ S → mask (c + u) ≤ 0) (j : G) :
+    gcorr c mask (flatDisk q S A B) j ≤ gcorr c mask (flatDisk q S A B) q := by
+  have h := flat_corr_diff c q mask S A B j hsym
+  have hs : 0 ≤ ∑ u : G, mask (c + u) * ((if u ∈ S then 1 else 0) - (if (j - q) - u ∈ S then (1 : ℚ) else 0)) := by
+    apply Finset.sum_nonneg
+    intro u _
+    by_cases hu : u ∈ S <;> by_cases hd : j - q - u ∈ S <;> simp only [hu, hd, if_true, if_false]
+    · simp
+    · have := hin u hu; linarith
+    · have := hout u hu; linarith
+    · simp
+  have : 0 ≤ A * ∑ u : G, mask (c + u) * ((if u ∈ S then 1 else 0) - (if (j - q) - u ∈ S then (1 : ℚ) else 0)) :=
+    mul_nonneg hA hs
+  linarith
+
+/-- ... and strictly so, as soon as one pixel of the disk with positive weight leaves the shifted disk (or one
+pixel of negative weight enters it) -/
+theorem sign_matched_strict (c q : G) (mask : G → ℚ) (S : Finset G) (A B : ℚ) (hA : 0 < A)
+    (hsym : ∀ u, u ∈ S ↔ -u ∈ S)
+    (hin : ∀ u ∈ S, 0 ≤ mask (c + u)) (hout : ∀ u, u ∉ S → mask (c + u) ≤ 0) (j : G)
+    (hw : ∃ u, (u ∈ S ∧ j - q - u ∉ S ∧ 0 < mask (c + u)) ∨ (u ∉ S ∧ j - q - u ∈ S ∧ mask (c + u) < 0)) :
+    gcorr c mask (flatDisk q S A B) j < gcorr c mask (flatDisk q S A B) q := by
+  have h := flat_corr_diff c q mask S A B j hsym
+  have hs : 0 < ∑ u : G, mask (c + u) * ((if u ∈ S then 1 else 0) - (if (j - q) - u ∈ S then (1 : ℚ) else 0)) := by
+    apply Finset.sum_pos'
+    · intro u _
+      by_cases hu : u ∈ S <;> by_cases hd : j - q - u ∈ S <;> simp only [hu, hd, if_true, if_false]
+      · simp
+      · have := hin u hu; linarith
+      · have := hout u hu; linarith
+      · simp
+    · obtain ⟨u, hu⟩ := hw
+      refine ⟨u, Finset.mem_univ u, ?_⟩
+      rcases hu with ⟨h1, h2, h3⟩ | ⟨h1, h2, h3⟩
+      · simp only [h1, h2, if_true, if_false]; linarith
+      · simp only [h1, h2, if_true, if_false]; linarith
+  have : 0 < A * ∑ u : G, mask (c + u) * ((if u ∈ S then 1 else 0) - (if (j - q) - u ∈ S then (1 : ℚ) else 0)) :=
+    mul_pos hA hs
+  linarith
+
+/-- a template that is strictly positive on the disk and not positive outside: the maximum at the centre is unique,
+provided no non-zero shift maps the disk onto itself -/
+theorem sign_matched_unique (c q : G) (mask : G → ℚ) (S : Finset G) (A B : ℚ) (hA : 0 < A)
+    (hsym : ∀ u, u ∈ S ↔ -u ∈ S)
+    (hin : ∀ u ∈ S, 0 < mask (c + u)) (hout : ∀ u, u ∉ S → mask (c + u) ≤ 0)
+    (hshape : ∀ d : G, d ≠ 0 → ∃ u ∈ S, d - u ∉ S) (j : G) (hj : j ≠ q) :
+    gcorr c mask (flatDisk q S A B) j < gcorr c mask (flatDisk q S A B) q := by
+  have hd : j - q ≠ 0 := sub_ne_zero.mpr hj
+  obtain ⟨u, hu, hnu⟩ := hshape (j - q) hd
+  exact sign_matched_strict c q mask S A B hA hsym (fun u hu => le_of_lt (hin u hu)) hout j
+    ⟨u, Or.inl ⟨hu, hnu, hin u hu⟩⟩
+
+end SignMatched
+
+/-- non-vacuity: a radial-gradient-like template (larger at the rim than at the centre) with a negative surround on the
+circular axis `ZMod 7`, disk `{-1, 0, 1}` at pixel 2: all hypotheses of `sign_matched_unique` hold -/
+def exMask : ZMod 7 → ℚ := fun x => if x = 3 then 1 else if x = 2 ∨ x = 4 then 2 else -1
+def exDisk : Finset (ZMod 7) := {0, 1, 6}
+
+example : ∀ j : ZMod 7, j ≠ 2 →
+    gcorr 3 exMask (flatDisk 2 exDisk 5 1) j < gcorr 3 exMask (flatDisk 2 exDisk 5 1) 2 :=
+  fun j hj => sign_matched_unique 3 2 exMask exDisk 5 1 (by norm_num) (by decide) (by decide) (by decide) (by decide) j hj
+
 
 theorem row_sum (g : ℤ → ℚ) (m : ℕ) :
     ((List.range m).map fun (x : ℕ) => g (x : ℤ)).sum = ∑ x ∈ Finset.range m, g x := by
@@ -248,6 +355,166 @@ theorem evaluate_symmetric_exact (corr : ℤ → ℤ → ℚ) (n m : ℕ) (hn : 
   constructor
   · have := refined_exact qy 2; push_cast at this ⊢; exact this
   · have := refined_exact qx 2; push_cast at this ⊢; exact this
+
+/-- a strict maximum over the map is *the* maximiser in the sense the evaluation kernel uses -/
+theorem strictMax_isMaxAt (corr : ℤ → ℤ → ℚ) (n m qy qx : ℤ) (hqy : 0 ≤ qy ∧ qy < n) (hqx : 0 ≤ qx ∧ qx < m)
+    (hstrict : ∀ a b : ℤ, 0 ≤ a → a < n → 0 ≤ b → b < m → (a, b) ≠ (qy, qx) → corr a b < corr qy qx) :
+    IsMaxAt corr n m qy qx ∧
+    (∀ y x y' x' : ℤ, IsMaxAt corr n m y x → IsMaxAt corr n m y' x' → y = y' ∧ x = x') := by
+  have hmax : IsMaxAt corr n m qy qx := by
+    refine ⟨hqy, hqx, fun a b ha0 ha1 hb0 hb1 => ?_⟩
+    by_cases h : (a, b) = (qy, qx)
+    · have h1 : a = qy := congrArg Prod.fst h
+      have h2 : b = qx := congrArg Prod.snd h
+      rw [h1, h2]
+    · exact le_of_lt (hstrict a b ha0 ha1 hb0 hb1 h)
+  have key : ∀ y x : ℤ, IsMaxAt corr n m y x → y = qy ∧ x = qx := by
+    intro y x ⟨hy, hx, hmx⟩
+    by_contra hne
+    have hne' : (y, x) ≠ (qy, qx) := by
+      intro h
+      exact hne ⟨congrArg Prod.fst h, congrArg Prod.snd h⟩
+    have h1 := hstrict y x hy.1 hy.2 hx.1 hx.2 hne'
+    have h2 := hmx qy qx hqy.1 hqy.2 hqx.1 hqx.2
+    linarith
+  refine ⟨hmax, fun y x y' x' h h' => ?_⟩
+  obtain ⟨a1, a2⟩ := key y x h
+  obtain ⟨b1, b2⟩ := key y' x' h'
+  exact ⟨a1.trans b1.symm, a2.trans b2.symm⟩
+
+/-- **strict maximum + point symmetry ⇒ exact centre and exact refined position** (the two hypotheses are what
+`sign_matched_unique` / `matched_disk_max` and `corr_symmetric` deliver for a symmetric template on a flat disk) -/
+theorem evaluate_strictmax_exact (corr : ℤ → ℤ → ℚ) (n m : ℕ) (hn : 0 < n) (hm : 0 < m) (qy qx : ℤ)
+    (hqy : 2 ≤ qy ∧ qy + 2 < n) (hqx : 2 ≤ qx ∧ qx + 2 < m)
+    (hstrict : ∀ a b : ℤ, 0 ≤ a → a < n → 0 ≤ b → b < m → (a, b) ≠ (qy, qx) → corr a b < corr qy qx)
+    (hsym : ∀ dy dx : ℤ, -2 ≤ dy → dy ≤ 2 → -2 ≤ dx → dx ≤ 2 → corr (qy + dy) (qx + dx) = corr (qy - dy) (qx - dx)) :
+    (evaluate corr n m).cy = qy ∧ (evaluate corr n m).cx = qx ∧
+    (evaluate corr n m).ry = (qy : ℚ) ∧ (evaluate corr n m).rx = (qx : ℚ) := by
+  obtain ⟨h1, h2⟩ := strictMax_isMaxAt corr n m qy qx ⟨by omega, by omega⟩ ⟨by omega, by omega⟩ hstrict
+  exact evaluate_symmetric_exact corr n m hn hm qy qx hqy hqx h1 h2 hsym
+
+/-- sum over `range n` as a sum over `ZMod n` (any commutative monoid of values) -/
+theorem sum_range_zmod {M : Type} [AddCommMonoid M] (n : ℕ) [NeZero n] (F : ZMod n → M) :
+    ∑ i ∈ Finset.range n, F (i : ZMod n) = ∑ a : ZMod n, F a := by
+  refine Finset.sum_nbij' (fun i => (i : ZMod n)) (fun a => a.val) ?_ ?_ ?_ ?_ ?_
+  · intro i _; exact Finset.mem_univ _
+  · intro a _; exact Finset.mem_range.mpr (ZMod.val_lt a)
+  · intro i hi; exact ZMod.val_cast_of_lt (Finset.mem_range.mp hi)
+  · intro a _; exact ZMod.natCast_zmod_val a
+  · intro i _; rfl
+
+/-- an `Int`-indexed image read on the torus -/
+def torus (H W : ℕ) (f : ℤ → ℤ → ℚ) : ZMod H × ZMod W → ℚ := fun p => f (p.1.val : ℤ) (p.2.val : ℤ)
+
+/-- the mask centre the `ifftshift` selects -/
+def tcentre (H W : ℕ) : ZMod H × ZMod W := ((((H : ℤ) / 2 : ℤ) : ZMod H), (((W : ℤ) / 2 : ℤ) : ZMod W))
+
+theorem val_int_sub (n : ℕ) [NeZero n] (k : ℤ) (m : ZMod n) :
+    ((((k : ZMod n) - m).val : ℕ) : ℤ) = (k - (m.val : ℤ)) % (n : ℤ) := by
+  have h : (k : ZMod n) - m = ((k - (m.val : ℤ) : ℤ) : ZMod n) := by
+    push_cast
+    rw [ZMod.natCast_zmod_val]
+  rw [h, ZMod.val_intCast]
+
+/-- **the model's correlation map is the group correlation `gcorr` on the torus `ZMod H × ZMod W`**, mask centred on
+`(H/2, W/2)`: the theorems about `gcorr` (`corr_symmetric`, `matched_disk_max`, `sign_matched_*`) are theorems about
+`corrMap` -/
+theorem corrMap_eq_gcorr (mask data : ℤ → ℤ → ℚ) (H W : ℕ) [NeZero H] [NeZero W] (y x : ℤ) :
+    corrMap "fft.ifftshift" mask data H W y x
+      = gcorr (tcentre H W) (torus H W mask) (torus H W data) ((y : ZMod H), (x : ZMod W)) := by
+  unfold corrMap gcorr
+  simp only
+  rw [Fintype.sum_prod_type, lsum_irange, ← sum_range_zmod H]
+  refine Finset.sum_congr rfl fun i hi => ?_
+  rw [lsum_irange, ← sum_range_zmod W]
+  refine Finset.sum_congr rfl fun j hj => ?_
+  have hi' := ZMod.val_cast_of_lt (Finset.mem_range.mp hi)
+  have hj' := ZMod.val_cast_of_lt (Finset.mem_range.mp hj)
+  unfold torus tcentre shiftSrc
+  simp only [true_or, if_true, Prod.fst_add, Prod.snd_add, Prod.fst_sub, Prod.snd_sub]
+  rw [hi', hj']
+  have e1 : ((y : ZMod H) + (((H : ℤ) / 2 : ℤ) : ZMod H) - ((i : ℕ) : ZMod H)) = (((y + (H : ℤ) / 2 : ℤ) : ZMod H) - ((i : ℕ) : ZMod H)) := by
+    push_cast; ring
+  have e2 : ((x : ZMod W) + (((W : ℤ) / 2 : ℤ) : ZMod W) - ((j : ℕ) : ZMod W)) = (((x + (W : ℤ) / 2 : ℤ) : ZMod W) - ((j : ℕ) : ZMod W)) := by
+    push_cast; ring
+  rw [e1, e2, val_int_sub, val_int_sub, hi', hj']
+  congr 2
+  · rw [Int.sub_emod, Int.emod_emod_of_dvd _ (dvd_refl (H : ℤ)), ← Int.sub_emod]
+  · rw [Int.sub_emod, Int.emod_emod_of_dvd _ (dvd_refl (W : ℤ)), ← Int.sub_emod]
+
+theorem cast_inj_range (n : ℕ) [NeZero n] (a b : ℤ) (ha : 0 ≤ a ∧ a < n) (hb : 0 ≤ b ∧ b < n)
+    (h : (a : ZMod n) = (b : ZMod n)) : a = b := by
+  rw [ZMod.intCast_eq_intCast_iff_dvd_sub] at h
+  have : b - a = 0 := Int.eq_zero_of_abs_lt_dvd h (by rw [abs_lt]; constructor <;> omega)
+  omega
+
+theorem flatDisk_symmetric {G : Type} [AddCommGroup G] [DecidableEq G] (q : G) (S : Finset G) (A B : ℚ)
+    (hS : ∀ u, u ∈ S ↔ -u ∈ S) (u : G) : flatDisk q S A B (q + u) = flatDisk q S A B (q - u) := by
+  unfold flatDisk
+  have e1 : q + u - q = u := by abel
+  have e2 : q - u - q = -u := by abel
+  simp only [e1, e2]
+  by_cases h : u ∈ S
+  · have h' : -u ∈ S := (hS u).mp h
+    simp only [h, h', if_true]
+  · have h' : -u ∉ S := fun hh => h ((hS u).mpr hh)
+    simp only [h, h', if_false]
+
+/-- **end to end, for every sign-matched symmetric template**: the (log-scaled) data is a flat disk `q + S` of amplitude
+`A > 0` on a uniform background, on an `H × W` map; the template is point-symmetric about its centre `(H/2, W/2)`,
+positive on the disk pixels and not positive elsewhere (circular, radial-gradient, background-subtracting and user
+templates of that kind); the disk is not mapped onto itself by a non-zero shift.  Then the evaluation kernels on the
+model's correlation map report the integer centre `q` and a refined position exactly `q` — for every map size and
+parity, every disk shape and every such template. -/
+theorem flat_disk_exact (mask data : ℤ → ℤ → ℚ) (H W : ℕ) [NeZero H] [NeZero W]
+    (S : Finset (ZMod H × ZMod W)) (A B : ℚ) (hA : 0 < A) (qy qx : ℤ)
+    (hqy : 2 ≤ qy ∧ qy + 2 < H) (hqx : 2 ≤ qx ∧ qx + 2 < W)
+    (hS : ∀ u, u ∈ S ↔ -u ∈ S)
+    (hmsym : ∀ u, torus H W mask (tcentre H W + u) = torus H W mask (tcentre H W - u))
+    (hin : ∀ u ∈ S, 0 < torus H W mask (tcentre H W + u))
+    (hout : ∀ u, u ∉ S → torus H W mask (tcentre H W + u) ≤ 0)
+    (hshape : ∀ d : ZMod H × ZMod W, d ≠ 0 → ∃ u ∈ S, d - u ∉ S)
+    (hdata : torus H W data = flatDisk ((qy : ZMod H), (qx : ZMod W)) S A B) :
+    let e := evaluate (corrMap "fft.ifftshift" mask data H W) H W
+    e.cy = qy ∧ e.cx = qx ∧ e.ry = (qy : ℚ) ∧ e.rx = (qx : ℚ) := by
+  intro e
+  have hH : 0 < H := Nat.pos_of_ne_zero (NeZero.ne H)
+  have hW : 0 < W := Nat.pos_of_ne_zero (NeZero.ne W)
+  refine evaluate_strictmax_exact (corrMap "fft.ifftshift" mask data H W) H W hH hW qy qx hqy hqx ?_ ?_
+  · intro a b ha0 ha1 hb0 hb1 hne
+    rw [corrMap_eq_gcorr, corrMap_eq_gcorr, hdata]
+    apply sign_matched_unique (tcentre H W) _ (torus H W mask) S A B hA hS hin hout hshape
+    intro h
+    apply hne
+    have h1 := cast_inj_range H a qy ⟨ha0, ha1⟩ ⟨by omega, by omega⟩ (congrArg Prod.fst h)
+    have h2 := cast_inj_range W b qx ⟨hb0, hb1⟩ ⟨by omega, by omega⟩ (congrArg Prod.snd h)
+    rw [h1, h2]
+  · intro dy dx _ _ _ _
+    rw [corrMap_eq_gcorr, corrMap_eq_gcorr, hdata]
+    have e1 : ((((qy + dy : ℤ) : ZMod H)), (((qx + dx : ℤ) : ZMod W)))
+        = (((qy : ZMod H), (qx : ZMod W)) : ZMod H × ZMod W) + (((dy : ZMod H), (dx : ZMod W))) := by
+      ext <;> simp
+    have e2 : ((((qy - dy : ℤ) : ZMod H)), (((qx - dx : ℤ) : ZMod W)))
+        = (((qy : ZMod H), (qx : ZMod W)) : ZMod H × ZMod W) - (((dy : ZMod H), (dx : ZMod W))) := by
+      ext <;> simp
+    rw [e1, e2]
+    exact corr_symmetric (tcentre H W) _ (torus H W mask) _ hmsym
+      (flatDisk_symmetric _ S A B hS) _
+
+/-- non-vacuity of `flat_disk_exact`: a 7×7 map, plus-shaped disk, a template that is larger on the rim than at the centre
+(radial-gradient-like) with a negative surround; disk at pixel (2, 4) -/
+def exS : Finset (ZMod 7 × ZMod 7) := {(0, 0), (1, 0), (6, 0), (0, 1), (0, 6)}
+def exM : ℤ → ℤ → ℚ := fun y x =>
+  if y = 3 ∧ x = 3 then 1 else if (y = 2 ∧ x = 3) ∨ (y = 4 ∧ x = 3) ∨ (y = 3 ∧ x = 2) ∨ (y = 3 ∧ x = 4) then 2 else -1
+def exD : ℤ → ℤ → ℚ := fun y x => flatDisk (((2 : ℤ) : ZMod 7), ((4 : ℤ) : ZMod 7)) exS 5 1 ((y : ZMod 7), (x : ZMod 7))
+
+example :
+    let e := evaluate (corrMap "fft.ifftshift" exM exD 7 7) 7 7
+    e.cy = 2 ∧ e.cx = 4 ∧ e.ry = 2 ∧ e.rx = 4 := by
+  have h := flat_disk_exact exM exD 7 7 exS 5 1 (by norm_num) 2 4 (by norm_num) (by norm_num)
+    (by decide) (by decide) (by decide) (by decide) (by decide)
+    (by funext p; unfold torus exD; simp)
+  simpa using h
 
 /-- **the same through the composed crop-based pipeline**: if the window's correlation map has its
 unique maximiser at window position `w` (≥ 2 px inside) and is point-symmetric about it on the 5×5
